@@ -6,7 +6,7 @@ from ..cfg import decompose as decompose_
 from ..model import Repo, AnalysisError, norm, enclosing_def
 from ..report import Check
 from ..linnorm import lin, NotLinear, compare_upper_bound
-from .shared import fn_ctx, live_ids, guard_atoms, rule_module_lifetime
+from .shared import fn_ctx, live_ids, guard_atoms, rule_module_lifetime, underlying
 
 
 def run(repo: Repo, chk: Check):
@@ -36,10 +36,13 @@ def run(repo: Repo, chk: Check):
         return None
 
     # ------------------------------------------------------------ R04.a
+    from .shared import register_roles
+    roles = register_roles(ra)
+    map_name = roles.get("mapping", "mapping")
     map_stores = [n for n in cfg.nodes if n.kind == "stmt" and isinstance(n.ast, ast.Assign) and
-                  any(isinstance(t, ast.Subscript) and norm(t.value) == "mapping" for t in n.ast.targets)]
+                  any(isinstance(t, ast.Subscript) and norm(t.value) == map_name for t in n.ast.targets)]
     if not map_stores:
-        raise AnalysisError("assign_registers: no store into 'mapping'")
+        raise AnalysisError("assign_registers: no store into the register mapping (T[<symbol>.code_expr] = f'r{n}')")
     avail_name = None
     idx_sites = []
     for n in map_stores:
@@ -185,7 +188,7 @@ def run(repo: Repo, chk: Check):
     rel = []
     for node in ast.walk(ac):
         if isinstance(node, ast.If) and enclosing_def(node) is ac:
-            apps = [x for x in node.body if isinstance(x, ast.Expr) and isinstance(x.value, ast.Call) and norm(x.value.func).endswith("free_colors.append")]
+            apps = [x for x in node.body if isinstance(x, ast.Expr) and isinstance(x.value, ast.Call) and norm(x.value.func) == roles.get("free", "free_colors") + ".append"]
             if apps:
                 rel.append(node)
     if len(rel) != 1:
@@ -210,7 +213,7 @@ def run(repo: Repo, chk: Check):
         ok_s = bool(sd) and all(d.kind == "assign" and d.index and isinstance(d.value, ast.Tuple) and norm(d.value.elts[d.index[0]]).endswith(".lifetime.start") or
                                d.kind == "assign" and not d.index and norm(d.value).endswith(".lifetime.start") for d in sd)
         # e comes from iterating `active`, whose entries are appended as (end, color) with end = .lifetime.stop
-        apps = [c for c in ast.walk(ac) if isinstance(c, ast.Call) and norm(c.func) == "active.append" and c.args and isinstance(c.args[0], ast.Tuple)]
+        apps = [c for c in ast.walk(ac) if isinstance(c, ast.Call) and norm(c.func) == roles.get("active", "active") + ".append" and c.args and isinstance(c.args[0], ast.Tuple)]
         ok_e = False
         for c in apps:
             first = c.args[0].elts[0]
@@ -221,7 +224,7 @@ def run(repo: Repo, chk: Check):
                                                                or not d.index and norm(d.value).endswith(".lifetime.stop")) for d in ds)
             elif norm(first).endswith(".lifetime.stop"):
                 ok_e = True
-        loop_ok = any(isinstance(lp, ast.For) and norm(lp.iter) == "active" and isinstance(lp.target, ast.Tuple) and norm(lp.target.elts[0]) == e_name
+        loop_ok = any(isinstance(lp, ast.For) and norm(lp.iter) == roles.get("active", "active") and isinstance(lp.target, ast.Tuple) and norm(lp.target.elts[0]) == e_name
                       for lp in ast.walk(ac))
         chk.judge("R04.g", "register_assignment:assign_colors:compares the stop of active intervals with the start of the new one", ok_s and ok_e and loop_ok,
                   f"the release test compares {e_name} and {s_name}, which are not (stop of an active interval, start of the current symbol)",
@@ -1016,7 +1019,8 @@ def r04i(repo, chk, R="R04.i"):
                         for a in ast.walk(c.args[0]):
                             if isinstance(a, ast.Attribute) and a.attr == "nodes_reading" and isinstance(a.value, ast.Name):
                                 ds = rd.at(ids_c[0], a.value.id)
-                                is_target = bool(ds) and all(d.kind == "assign" and d.value is not None and "get_sym_data(target)" in norm(d.value) for d in ds)
+                                is_target = bool(ds) and all(d.kind == "assign" and d.value is not None and isinstance(d.value, ast.Call) and norm(d.value.func).endswith("get_sym_data")
+                                                             and d.value.args and all(".targets[0]" in norm(u) for u in underlying(rd, d.node, d.value.args[0])) for d in ds)
                     if is_target:
                         handed.append(c.func.value.attr)
         key = f"generate_code:{fn.qual}:the kept device-id register gets the accesses of the device name"
